@@ -14,7 +14,7 @@ var subcmds = map[string]subcmd{}
 
 func main() {
 	if len(os.Args) < 2 {
-		fmt.Fprintln(os.Stderr, "usage: harness_resp <gen|run|child|tcp|cmdtable> args...")
+		fmt.Fprintln(os.Stderr, "usage: harness_resp <gen|run|child|serve|tcp|cmdtable> args...")
 		os.Exit(2)
 	}
 	f, ok := subcmds[os.Args[1]]
